@@ -9,7 +9,8 @@ silent      must produce the same verdict as the unchanged tree: (a) every line 
             after the module docstring), (b) the whole module re-emitted by ast.unparse (comments gone, quotes,
             parentheses and line breaks normalised), (c) every function-local renamed, (d) the arms of every if/else swapped
             under a negated test, (e) the rewrites of selftest/variants.py (logging inserted, comparisons flipped,
-            returns through a temporary, else after a terminating arm, annotations).  An alarm here means a rule
+            returns through a temporary, else after a terminating arm, annotations; augmented assignments expanded,
+            De Morgan, conjunctions nested, early continue, an unrelated bookkeeping store).  An alarm here means a rule
             matches text or positions.
 
 Results go to the evidence file (coverage.selftest); they never decide the exit status.
@@ -185,7 +186,7 @@ def run_selftest(pid, chk, seed=0):
             continue
         src = open(path).read()
         from . import variants
-        for name, fn in (("shifted-lines", _shift_lines), ("re-emitted-by-ast.unparse", _reemit), ("locals-renamed", _rename_locals), ("if-else-arms-swapped", _invert_ifs)) + variants.EXTRA:
+        for name, fn in (("shifted-lines", _shift_lines), ("re-emitted-by-ast.unparse", _reemit), ("locals-renamed", _rename_locals), ("if-else-arms-swapped", _invert_ifs)) + variants.EXTRA + variants.EXTRA2:
             try:
                 new = fn(src)
                 compile(new, rel, "exec")
@@ -194,7 +195,7 @@ def run_selftest(pid, chk, seed=0):
             res["variants"] += 1
             v, keys, c2 = _verdict(pid, {rel: new})
             same = v == base_v and keys == base_keys and sorted(o["key"] for o in c2.obligations) == base_ob
-            if name == "if-else-arms-swapped" or name in dict(variants.EXTRA):
+            if name == "if-else-arms-swapped" or name in dict(variants.EXTRA + variants.EXTRA2):
                 same = v == base_v and (v != "violation" or keys == base_keys)
             if name == "locals-renamed":
                 # instance keys may legitimately mention a local's name; what matters is the verdict
